@@ -8,7 +8,10 @@ Second part (`_scenarios`, harness/lib/c12scen.py): databases with 2-3 recording
 cancelled calls, an OEM-like ECU subclass, pauses, short scans sent several times and a synthetic table of state objects, replayed
 through the real server with its state and cursor read after every request and through the server-level model
 (Model/ReplayServe.lean, `serve`); a replay that differs from its recording is shrunk (re-recorded with a scripted ECU) before it
-is reported."""
+is reported.  Scenario `property-sets`: 2-4 runs of ECUs of one family whose `properties_pre` / `properties_post` are written only by the real
+`DBHandler` calls (insert_scan_run, insert_scan_run_properties_pre - or not: the write failed / was skipped -, complete_scan_run - or not), the other
+runs holding rows for the same requests with other replies and post-properties that do / do not match the selector; the columns are compared with
+`RunCols.after`, the run whose pre-properties match must be replayed byte for byte (`_report_spec_db` shrinks the whole database)."""
 import asyncio
 import json
 import sqlite3
@@ -32,6 +35,10 @@ ASSUMPTIONS = [
     "(here every recorded reply is additionally compared with the real parser: class, typed or raw, re-serialised bytes)",
     "the recording side is C11's recorder model (`Model/DbLog.lean`, imported read-only): `record_is_c11_rows` / `record_is_c11_calls` say its rows are `recordDb`; that the model is the real "
     "`ECU._request` + `DBHandler` is C11's tie (here: the rows read back are the completed calls in completion order, the logged state is the model's client state)",
+    "`scan_run.properties_pre` / `properties_post` are modelled as written by `insert_scan_run_properties_pre` / `complete_scan_run` only (`RunCols.after`; tied: the columns read back after the real calls); "
+    "a run whose pre-properties were never written has `properties_pre IS NULL` = a property object without keys for the WHERE clause (`RunCols.info`) - `run_without_pre_properties_never_selected` is for selectors "
+    "with at least one property value; a selector that only asks for absent properties (`None`) or the empty property set sees such runs too (model = code, no statement of the property); "
+    "ECU names are assigned by hand (`address.ecu`; gallia has no call for it)",
     "the default rules of `UDSServer` are parameters of the server-level model (C13 models them); with `DBUDSServer.Behavior` - regenerated from the live class on every run - they are never consulted",
     "several recordings the selector selects occupy id blocks that do not overlap (`RunsSorted`: one recording at a time per database file); `replay_with_earlier_runs` is for recordings of the same request sequence "
     "that end in the default state - for other request sequences the exact statement is the step-level `replay_cursor_spec` plus `replay_earliest_recording`",
@@ -831,7 +838,8 @@ def run(ctx):
                 "boot polling where the same request is first unanswered and later answered); the state logged per row is compared with the "
                 "model's client state-tracking rule; distinct = distinct (rows, request sequence); non-trivial = history contains a state change; "
                 "scenario databases (harness/lib/c12scen.py): one case = (database with 2-3 recordings of one ECU / refused replies / cancelled calls / OEM state keys / pauses / a short scan sent several times, "
-                "selector, request sequence, server-side state keys), compared reply~state@cursor per request")
+                "selector, request sequence, server-side state keys), compared reply~state@cursor per request; `property-sets`: 2-4 runs x (pre-properties written / not) x (completed with matching / differing post-properties / not completed), "
+                "recorded through the real DBHandler calls, selected by 1-3 property values (+ ECU name), by an absent property and by the empty set")
     n_db = ctx.pick(70, 400)
     lines_replay, lines_agree, lines_db, meta = [], [], [], []
     with tempfile.TemporaryDirectory(prefix="verif-c12-") as td:
@@ -988,13 +996,15 @@ MANIFEST = {
     "level_text": ("Lean 4 theorems over an executable model of the whole replay path. Row level (`replayStep`): `replay_faithful` / `replay_faithful_db` - a recorded history on which client- and "
                    "server-side state tracking agree (the property's presupposition, decidable) is replayed exactly, whatever other ECUs / property sets / later rows the database holds; `replay_cursor_spec` - the "
                    "cursor rule in general (smallest matching id above the cursor, else smallest matching id); `replay_earliest_recording`, `replay_with_earlier_runs`, `replay_faithful_repeated_runs` - several "
-                   "recordings of the same ECU: the earliest is served first, m passes go round robin through k recordings, identical recordings replay exactly; `replay_again`; `replay_skips_unsent_calls` - rows of calls "
+                   "recordings of the same ECU: the earliest is served first, m passes go round robin through k recordings, identical recordings replay exactly; `replay_again`; `run_without_pre_properties_never_selected` / `complete_scan_run_keeps_selection` - only `insert_scan_run_properties_pre` decides "
+                   "whether a property value selects a run, a run completed without pre-properties stays invisible whatever its post-properties are; `replay_skips_unsent_calls` - rows of calls "
                    "that were never transmitted. Recording side: `record_is_c11_rows` / `record_is_c11_calls` - the rows C11's recorder model leaves under every schedule / fault / cancellation are `recordDb`. "
                    "Server level (`serveStep` = handle_request -> respond -> respond_after_default -> update_state over JSON state objects, with request and reply parsed and re-serialised): `serve_is_replay` - it is the "
                    "row-level model, given C01's and C02's round trips as hypotheses (discharged in `codec_hypotheses_hold`); `update_state_class_is_classify` - the state-tracking classes are read off C02's decoder; "
                    "`state_match_keywise`; `unparsable_recorded_reply`; `served_bytes_are_recorded`; `server_tables_agree` - DBUDSServer.Behavior, the rule chain, the query tails, the cursor start, the inactivity limit and "
                    "ECUState's keys regenerated from the working tree. Tie: recording with the real ECU (+ an OEM-like subclass) + DBHandler against RandomUDSServer, a state-aware table ECU and reply-mutating / "
-                   "suppress-ignoring variants into real sqlite files - 1..3 ECUs per file, 2-3 recordings of one ECU, refused replies, calls cancelled in flight or while waiting for the mutex - and replaying through the real "
+                   "suppress-ignoring variants into real sqlite files - 1..3 ECUs per file, 2-3 recordings of one ECU, refused replies, calls cancelled in flight or while waiting for the mutex, 2-4 runs whose property columns are written by the real DBHandler calls "
+                   "(pre-properties written or not, completed or not, post-properties matching the selector or not) - and replaying through the real "
                    "DBUDSServer / UDSServerTransport.handle_request with state and cursor read after every request: model = code on every replay, code = recording whenever the presupposition holds (also on further "
                    "passes of a recording that ends in the default state)."),
     "level_note": ("Trusted: Lean kernel, sqlite/aiosqlite, the harness. C01 / C02 round trips enter as explicit hypotheses discharged from those properties' lemmas; the recorder is C11's model. The inactivity reset and the wrap-around are "
